@@ -68,10 +68,19 @@ func genC03Program(r *R, ex map[string]bool) *Program {
 	)
 	ctx.M = append(ctx.M, KV{"pm", &Val{T: "pmap", M: []KV{{"k", &Val{T: "str", S: "v"}}}}})
 	ctx.M = append(ctx.M, KV{"mx", &Val{T: "anymap", M: []KV{{"#9", &Val{T: "str", S: "nine"}}, {"1a", &Val{T: "int", I: 1}}, {"#10", &Val{T: "str", S: "ten"}}, {"b", &Val{T: "bool", B: true}}, {"#-3", &Val{T: "int", I: 3}}, {"10", &Val{T: "str", S: "s10"}}}}})
-	maps := []string{"m1", "m2", "mi", "p1.Meta", "nm", "nm.b", "si", "mx"}
+	// keys that collide under plausible normalisations (case folding, trimming, numeric parsing)
+	str := func(x string) *Val { return &Val{T: "str", S: x} }
+	ctx.M = append(ctx.M,
+		KV{"cs", &Val{T: "map", M: []KV{{"Accept", str("A1")}, {"accept", str("a2")}, {"ACCEPT", str("A3")}, {"b", str("b4")}, {"B", str("B5")}, {" b", str("sb")}}}},
+		KV{"cs2", &Val{T: "smap", M: []KV{{"Key", str("K")}, {"key", str("k")}, {"1", str("one")}, {"01", str("zero-one")}, {"1.0", str("one-dot")}}}},
+	)
+	maps := []string{"m1", "m2", "mi", "p1.Meta", "nm", "nm.b", "si", "mx", "cs", "cs2"}
 	hashLit := func() string {
 		n := r.Range(2, 4)
 		keys := []string{"a", "b", "c", "d"}
+		if r.P(25) && !ex["hash-duplicate-keys"] {
+			keys = []string{"a", "A", "b", "B"} // part0 prints a,b,c,d only; case variants must not merge
+		}
 		var parts []string
 		for i := 0; i < n; i++ {
 			k := pick(r, keys)
